@@ -281,7 +281,7 @@ func (sh *blobAccessMutableProtoHandle[T, TProto]) Release(isDirty bool) {
 	defer ss.lock.Unlock()
 
 	if isDirty {
-		sh.currentVersion = sh.writtenVersion + 1
+		sh.currentVersion++
 	}
 	sh.decreaseUseCount()
 }
